@@ -18,7 +18,7 @@ Also write a DEMONSTRATION: a Go test file (placed in the worktree, new file) or
 
 Environment: no network. Before any go command: export GOFLAGS=-mod=mod GOPROXY=off (do not set GOTOOLCHAIN or GOSUMDB). Build the shell with: go build -o /tmp/seed-$P-out/murex . ; run code with: /tmp/seed-$P-out/murex -c '<murex code>'. In-process test helper: github.com/lmorg/murex/test (test.RunMurexTests). Use default build tags. Keep go test invocations scoped to packages (the full suite takes ~10 min; you may run it once at the end: go test -vet=off -count=1 ./... ).
 
-Verify yourself: with the change the demo fails; after reverting the source change (save it with `git diff > /tmp/seed-$P-out/patch.diff` and flip it with `git apply -R` / `git apply`; NEVER use `git stash`: the stash is shared with other worktrees of this repository and other people are using it) the demo passes; the existing tests pass with the change.
+Verify yourself: with the change the demo fails; after reverting the source change (save it with "git diff > /tmp/seed-$P-out/patch.diff" and flip it with "git apply -R" / "git apply"; NEVER use "git stash": the stash is shared with other worktrees of this repository and other people are using it) the demo passes; the existing tests pass with the change.
 
 DELIVERABLES in /tmp/seed-$P-out/:
  - patch.diff : git diff of the SOURCE change only (not the demo), applicable with git apply from the repo root
